@@ -1007,7 +1007,7 @@ impl Interpreter {
 
         // Run the bytecode VM
         let vm_guard = self.heap.create_guard();
-        let vm = BytecodeVM::with_guard(chunk, JsValue::Object(self.global.clone()), vm_guard);
+        let vm = BytecodeVM::with_guard(chunk, self.top_level_this(module_path.is_some()), vm_guard);
 
         let result = self.run_vm_to_completion(vm);
 
@@ -1496,7 +1496,7 @@ impl Interpreter {
 
         // Create VM but don't run it
         let vm_guard = self.heap.create_guard();
-        let vm = BytecodeVM::with_guard(chunk, JsValue::Object(self.global.clone()), vm_guard);
+        let vm = BytecodeVM::with_guard(chunk, self.top_level_this(module_path.is_some()), vm_guard);
 
         // Store VM and state for step-based execution
         self.active_vm = Some(Box::new(vm));
@@ -1505,6 +1505,16 @@ impl Interpreter {
         self.active_module_env = module_env;
 
         Ok(StepResult::Continue)
+    }
+
+    /// `this` at the top level: `undefined` in a module (a program with a module path),
+    /// the global object in a script
+    fn top_level_this(&self, is_module: bool) -> JsValue {
+        if is_module {
+            JsValue::Undefined
+        } else {
+            JsValue::Object(self.global.clone())
+        }
     }
 
     /// Drop the execution state of a run that did not finish with `Complete`
@@ -1654,7 +1664,7 @@ impl Interpreter {
 
         // Create VM
         let vm_guard = self.heap.create_guard();
-        let vm = BytecodeVM::with_guard(chunk, JsValue::Object(self.global.clone()), vm_guard);
+        let vm = BytecodeVM::with_guard(chunk, self.top_level_this(module_path.is_some()), vm_guard);
 
         // Store VM and state for step-based execution
         self.active_vm = Some(Box::new(vm));
@@ -3414,7 +3424,8 @@ impl Interpreter {
         } else {
             Compiler::compile_program(program)?
         };
-        let result = self.run_bytecode(chunk)?;
+        // Module bodies (dependencies, internal source modules): `this` is undefined
+        let result = self.run_bytecode_with_this(chunk, JsValue::Undefined)?;
         Ok(result.value)
     }
 
